@@ -3,8 +3,13 @@
 spec -> code: every scenario of the two Redaction_gen.tla families (raw JSON objects, well-formed signed PDUs)
 for all 16 registered room versions is concretised and redacted by the real code; key sets, values, idempotence,
 type/sender/room/state key, event ID and signatures are compared with what the specification derives.
-Unlisted keys are also drawn from the member names the tree under test itself uses (kind vocab), and every observed
+Unlisted keys are also drawn from the member names the tree under test itself uses (kind vocab; with the ASCII case
+variants and the Unicode fold variants - U+017F for s, U+212A for k - of every listed key), and every observed
 redaction is preceded by other calls in the same process, of which it must be independent (kind hist).
+Kind route: the event OBJECT route as a state machine - an object made by the trusted / with-event-ID / headered /
+untrusted parse from canonical or non-canonical JSON text, with or without an event_id member, then Sign / SetUnsigned /
+EventID() / Redact() in every order; after every step JSON(), the signatures, Redacted() and the event ID are compared
+with the specification (invariant PRoute: identity unchanged, no signature lost, Redact() = redaction of the current JSON).
 code -> spec: seeded random events with random extra keys are redacted by the real code, logged, and the kept key
 sets of every line are recomputed by Redaction_trace.tla."""
 import json
@@ -23,13 +28,34 @@ _CONTENT_LISTED = ("membership", "join_authorised_via_users_server", "creator", 
                    "events_default", "kick", "redact", "state_default", "users", "users_default", "invite",
                    "history_visibility", "aliases", "redacts", "third_party_invite")
 _NAME = re.compile(r"[A-Za-z_][A-Za-z0-9_.\-]{0,40}")
+# Letters that are lower / upper case already and that Unicode simple case folding - hence encoding/json's matching
+# of member names to struct fields - equates with an ASCII letter: U+017F LATIN SMALL LETTER LONG S (s), U+212A KELVIN
+# SIGN (k).  Written <U+XXXX> in the vocabulary handed to the specification (ASCII only there); the harness realises it.
+_FOLD = {"s": "<U+017F>", "k": "<U+212A>"}
+
+
+def fold_variants(name):
+    """The fold variants of one member name: every s / k replaced; only the first; only the last; the first replaced
+    and the ASCII letters in upper case.  Empty for a name without s and k."""
+    pos = [i for i, ch in enumerate(name) if ch in _FOLD]
+    if not pos:
+        return []
+
+    def spell(which, upper=False):
+        return "".join(_FOLD[ch] if i in which else (ch.upper() if upper else ch) for i, ch in enumerate(name))
+    out = []
+    for v in (spell(set(pos)), spell({pos[0]}), spell({pos[-1]}), spell({pos[0]}, upper=True)):
+        if v not in out:
+            out.append(v)
+    return out
 
 
 def gather_vocabulary(repo):
     """Every JSON member name the library's own sources use: `json:"<name>` struct tags of all non-test Go files,
     and the name-like string literals of the files that address JSON by path (gjson / sjson).  Returns
     (names, casevariants): sorted, duplicate-free, disjoint; `casevariants` differ from a listed top-level key only
-    in letter case."""
+    in letter case - the ASCII case variants found in the sources, and the Unicode fold variants (fold_variants) of
+    every listed top-level key; the fold variants of the listed content keys (and of `signed`) are among `names`."""
     found = set()
     for root, dirs, files in os.walk(repo):
         dirs[:] = [d for d in dirs if not d.startswith(".") and d != "testdata"]
@@ -57,6 +83,10 @@ def gather_vocabulary(repo):
             names.append(n)
     if len(names) < 40:
         raise MachineryError("vocabulary gathered from %s has only %d names" % (repo, len(names)))
+    for k in _TOP_LISTED:
+        case += [v for v in fold_variants(k) if v not in case]
+    for k in _CONTENT_LISTED + ("signed",):
+        names += [v for v in fold_variants(k) if v not in names and v not in case]
     return names, case
 
 
@@ -77,6 +107,12 @@ def run(ctx):
         "keys containing a double quote or a backslash are not generated (canonical JSON of such keys is C01's subject)",
         "earlier calls of the same process (history dimension) run on the goroutine of the observed call, immediately "
         "before it; state that only another goroutine / a later garbage collection would expose is not exercised",
+        "object route: the event ID told to NewEventFromTrustedJSONWithEventID / carried by headered JSON is the event's "
+        "own; an event_id member in a room version 3+ event is exercised through the trusted entry points only (receipt "
+        "strips it, which changes what the content hash covers: not this property's subject); non-canonical JSON text "
+        "through the trusted entry points only (receipt refuses it from room version 6 on); one object, one goroutine",
+        "fold variants: U+017F and U+212A are the only non-ASCII code points that simple case folding equates with an "
+        "ASCII letter, so they exhaust the names encoding/json can match to a struct field beyond ASCII case",
     ]
     ctx.exhaustive = True
     # the vocabulary of the "everything else is removed" clause: what the tree under test itself names
@@ -85,7 +121,7 @@ def run(ctx):
     with open(vocab, "w") as f:
         json.dump({"names": names, "casevariants": case}, f)
     env = {"C05_VOCAB": vocab}
-    ctx.log("vocabulary: %d names (+%d case variants of listed top-level keys) from %s" % (len(names), len(case), REPO))
+    ctx.log("vocabulary: %d names (+%d case / fold variants of listed top-level keys) from %s" % (len(names), len(case), REPO))
     ctx.notes["rule"] = (
         "every scenario of Redaction_gen.tla: 16 room versions x 8 event types (7 protected + other) x presence shapes "
         "over the pool of optional top-level keys and candidate content keys of the type (none, each key alone, each "
@@ -102,22 +138,55 @@ def run(ctx):
         "or a non-string type; every algorithm) whose events carry a distinctive value under every listed key: all "
         "100 single calls%s before 3 event types x 2 shapes; every record of the other kinds is decorated with such "
         "calls derived from (seed, position); "
-        "distinct = distinct (family, algorithm, type, kept top-level set, kept content set, kept nested set[, history])"
+        "kind route: %s; "
+        "distinct = distinct (family, algorithm, type, kept top-level set, kept content set, kept nested set[, history]"
+        "[, entry point, spelling, operations])"
         % ("raw: all 12 with the full lattice; pdu: 0-5 full, 6-11 none/singles/all" if ctx.tier == "thorough"
            else "offset 0 with the full lattice (for 6 versions, one per event format x algorithm; the other "
                 "10 none/singles/all), offsets 4 and 8 with none/singles/all, the other 9 offsets with the shape all",
            len(names) + len(case), REPO,
            "3" if ctx.tier == "thorough" else "6",
            "16 versions" if ctx.tier == "thorough" else "6 versions (one per event format x algorithm)",
-           " and pairs of RedactEventJSON calls with different outcomes" if ctx.tier == "thorough" else ""))
-    ctx.notes["constants"] = "Redaction_gen_{raw,pdu,extra}_%s.cfg" % ctx.tier
-    for fam in ("raw", "pdu", "extra"):
+           " and pairs of RedactEventJSON calls with different outcomes" if ctx.tier == "thorough" else "",
+           "every sequence containing Redact of %s operations from {Sign (other server, then a second key of the origin, then "
+           "the first again), SetUnsigned, EventID(), Redact} on an object made by each of 4 entry points x 3 spellings of "
+           "the JSON text (canonical; members reversed + whitespace; escapes in every string) x event_id member absent / "
+           "present (v3+), %s" % (
+               ("3 (16 versions, 3 event types x 1 shape; 6 versions, 4 types x 2 shapes) and 4 (3 versions)",
+                "every combination for the 6 versions, pruned by relevance otherwise") if ctx.tier == "thorough"
+               else ("3", "room versions 1, 10, 12 (one per event format), member (all optional keys) / create / message "
+                          "events, combinations pruned by relevance (the spelling matters to a computed ID, not to a member)"))))
+    ctx.notes["constants"] = "Redaction_gen_{raw,pdu,extra,route%s}_%s.cfg" % (",routefull,route4" if ctx.tier == "thorough" else "", ctx.tier)
+    fams = ("raw", "pdu", "extra", "route") + (("routefull", "route4") if ctx.tier == "thorough" else ())
+    for fam in fams:
         r = ctx.tlc("Redaction_gen", "Redaction_gen_%s_%s.cfg" % (fam, ctx.tier), timeout=1500, env=env)
         if fam == "extra":
             vocabulary_covered(r.records, names, case)
+        if fam.startswith("route"):
+            routes_covered(r.records)
         ctx.replay_and_compare("c05", r.records, pkg=PKG)
         del r
     record_and_validate(ctx, 4000 if ctx.tier == "quick" else 200000)
+
+
+def routes_covered(records):
+    """Generator sanity: every entry point, every operation after every other, every spelling, an event_id member in
+    a room version 3+ event, and the sequence receipt -> Sign -> Redact are among the records."""
+    entries, pairs, sps, idm, seqs = set(), set(), set(), False, set()
+    for r in records:
+        entries.add(r["entry"])
+        sps.add(r["sp"])
+        steps = r["steps"]
+        pairs.update(zip(steps, steps[1:]))
+        seqs.add((r["entry"],) + tuple(steps[:2]))
+        idm = idm or (r["ver"] not in ("1", "2") and "event_id" in r["top"])
+        if len(r["exp"]) != len(steps) + 1 or "redact" not in steps:
+            raise MachineryError("malformed route record: %s" % json.dumps(r)[:300])
+    ops = ("sign", "setunsigned", "readid", "redact")
+    if entries != {"trusted", "withid", "headered", "untrusted"} or sps != {"canon", "rev", "esc"} or not idm \
+            or pairs != {(a, b) for a in ops for b in ops} or ("untrusted", "sign", "redact") not in seqs:
+        raise MachineryError("route records do not cover the object route: entries %s, spellings %s, event_id member %s, "
+                             "%d operation pairs" % (sorted(entries), sorted(sps), idm, len(pairs)))
 
 
 def vocabulary_covered(records, names, case):
@@ -142,7 +211,7 @@ def vocabulary_covered(records, names, case):
             raise MachineryError("vocabulary names never tried as keys of third_party_invite for %s: %s" % (k, missing[:10]))
     for k, seen in top.items():
         missing = [n for n in names if n not in seen and n not in _TOP_LISTED]
-        missing += [n for n in case if k[0] == "raw" and n not in seen]
+        missing += [n for n in case if n not in seen]
         if missing:
             raise MachineryError("vocabulary names never tried as top-level keys for %s: %s" % (k, missing[:10]))
     for k, seen in con.items():
